@@ -388,7 +388,7 @@ func c07SiteNames(b *c07Built) string {
 
 func c07GenCase(c *Case, group string, cat *c07Catalogue, nShifts int) {
 	seed := c.R.U64()
-	base := c07Build(group, seed, c07Shift{}, cat, 0, 0)
+	base := c07Build(group, seed, c07Shift{}, cat, 0, 0, false)
 	if !base.ok {
 		c.Count("gen_not_built", 1)
 		c.Logf("not built: %s", base.why)
@@ -450,6 +450,14 @@ func c07GenCase(c *Case, group string, cat *c07Catalogue, nShifts int) {
 		if strings.HasPrefix(k, "sub:") {
 			c.SetAdd("sub_node_anchors", k[4:])
 		}
+		if strings.HasPrefix(k, "pair:") {
+			c.SetAdd("pairs_of_rules_in_one_scalar", k[5:]+"|"+base.styleClass())
+			c.Count("cases_with_two_constructs_in_one_scalar", 1)
+		}
+	}
+	if base.info["lead"] > 0 {
+		c.SetAdd("blanks_inside_quotes", fmt.Sprintf("%s|%d", base.mode, base.info["lead"]))
+		c.SetAdd("blanks_inside_quotes_modes", base.mode)
 	}
 	if base.mode == "emb" {
 		c.SetAdd("earlier_placeholders", fmt.Sprint(base.info["ph"]))
@@ -497,6 +505,10 @@ func c07GenCase(c *Case, group string, cat *c07Catalogue, nShifts int) {
 		c07Variant(c, base, ds0, obs0, group, seed, cat, base.style, 'f', "holder")
 	}
 
+	// (e) no interference: a second diagnosed construct in a neighbouring scalar must not move
+	// the report of the first one
+	c07Neighbour(c, base, ds0, group, seed, cat)
+
 	// (c) shifts
 	kinds := base.shifts
 	for s := 0; s < nShifts; s++ {
@@ -514,12 +526,19 @@ func c07GenCase(c *Case, group string, cat *c07Catalogue, nShifts int) {
 			sh.k = sr.Range(1, 40)
 		case "placeholder":
 			sh.k = sr.Range(6, 40)
+		case "innerspace":
+			sh.k = sr.Range(1, 6)
+			if base.style == c07Plain {
+				// blanks at the start of a scalar need quotes: not applicable to a plain rendering
+				c.Count("shift_not_applicable", 1)
+				continue
+			}
 		}
 		fm := byte('b')
 		if base.inFlow {
 			fm = 'f'
 		}
-		sb := c07Build(group, seed, sh, cat, base.style, fm)
+		sb := c07Build(group, seed, sh, cat, base.style, fm, false)
 		if !sb.ok {
 			c.Count("shift_not_applicable", 1)
 			continue
@@ -551,6 +570,9 @@ func c07GenCase(c *Case, group string, cat *c07Catalogue, nShifts int) {
 		c07Bounds(c, "generated:"+group, sb.src, ds1, func() map[string]interface{} { return c07Detail(sb, ds1, nil) })
 		c.Count("shifts_compared", 1)
 		c.SetAdd("shift_kinds", sh.kind)
+		if sh.kind == "innerspace" {
+			c.SetAdd("innerspace_shift_modes", base.mode)
+		}
 		c.SetAdd("shift_kind_x_group", sh.kind+"|"+group)
 		// expected: every diagnostic of the base, moved by the move of its anchor
 		type key struct {
@@ -590,7 +612,7 @@ func c07GenCase(c *Case, group string, cat *c07Catalogue, nShifts int) {
 					sameMsgs = false
 				}
 			}
-			if !sameMsgs && base.mode == "emb" && (sh.kind == "pretext" || sh.kind == "placeholder") && c07OnlyScalarEchoDiffers(m0, m1) {
+			if !sameMsgs && (base.mode == "emb" && (sh.kind == "pretext" || sh.kind == "placeholder") || sh.kind == "innerspace") && c07OnlyScalarEchoDiffers(m0, m1) {
 				// some messages quote the whole scalar, which a content shift changes by design
 				c.Count("shift_message_echoes_scalar", 1)
 				continue
@@ -617,7 +639,7 @@ func c07GenCase(c *Case, group string, cat *c07Catalogue, nShifts int) {
 // base rendering (no convention needed); expectations with an absolute position get the absolute
 // oracle again.
 func c07Variant(c *Case, base *c07Built, ds0 []Diag, obs0 []c07Obs, group string, seed uint64, cat *c07Catalogue, style, flowMode byte, label string) {
-	vb := c07Build(group, seed, c07Shift{}, cat, style, flowMode)
+	vb := c07Build(group, seed, c07Shift{}, cat, style, flowMode, false)
 	if !vb.ok {
 		c.Count("variant_not_applicable_"+label, 1)
 		return
@@ -708,6 +730,66 @@ func c07Variant(c *Case, base *c07Built, ds0 []Diag, obs0 []c07Obs, group string
 			c.Violation(sig,
 				fmt.Sprintf("%s diagnostic (site %s): offset of the report from the construct is %v in a %s scalar (flow %v) but %v in a %s scalar (flow %v): %s", base.kind, siteName, a, base.styleName(), base.inFlow, b, vb.styleName(), vb.inFlow, o1.exp.msg),
 				map[string]interface{}{"base": c07Detail(base, ds0, nil), "variant": c07Detail(vb, ds1, nil), "offsets_base": a, "offsets_variant": b})
+		}
+	}
+}
+
+// c07Neighbour re-lints the base case with one more erroneous construct added after the target in
+// the same holder. Every diagnostic of the base must still be reported at the same position; a
+// diagnostic whose message disappeared is not compared (the added entry may legitimately change
+// what is checked), one whose message is still there but elsewhere is a violation.
+func c07Neighbour(c *Case, base *c07Built, ds0 []Diag, group string, seed uint64, cat *c07Catalogue) {
+	fm := byte('b')
+	if base.inFlow {
+		fm = 'f'
+	}
+	nb := c07Build(group, seed, c07Shift{}, cat, base.style, fm, true)
+	if !nb.ok || nb.inFlow != base.inFlow || nb.target.val != base.target.val || len(nb.expects) != len(base.expects) {
+		c.Count("neighbour_not_applicable", 1)
+		return
+	}
+	if a, b := base.anchorPos(base.expects[0]), nb.anchorPos(nb.expects[0]); a != b || !c07YAMLHasScalarAt(nb.src, nb.target.pos, nb.target.val) {
+		c.Count("neighbour_not_applicable", 1) // the added entry changed the layout (it never should)
+		c.SetAdd("neighbour_moved_layout", c07SiteNames(base))
+		return
+	}
+	ds1, err := lintSrc(nb.src)
+	c.Eval(1)
+	if err != nil {
+		c.Violation("C07:fatal-error", "linting a generated workflow returned a fatal error: "+err.Error(), map[string]interface{}{"src": nb.src})
+		return
+	}
+	c.Logf("---- neighbour variant\n%s", nb.src)
+	c.Logf("diagnostics: %s", strings.Join(diagStrings(ds1), "\n             "))
+	c07Bounds(c, "generated:"+group, nb.src, ds1, func() map[string]interface{} { return c07Detail(nb, ds1, nil) })
+	if len(ds1) > len(ds0) {
+		c.Count("neighbour_added_diagnostics", 1)
+	}
+	c.Count("neighbours_compared", 1)
+	for _, d := range ds0 {
+		m := c07NormMsg(d.Msg)
+		same, elsewhere := false, false
+		var other Diag
+		for _, e := range ds1 {
+			if c07NormMsg(e.Msg) != m || e.Kind != d.Kind {
+				continue
+			}
+			if e.Line == d.Line && e.Col == d.Col {
+				same = true
+			} else {
+				elsewhere, other = true, e
+			}
+		}
+		switch {
+		case same:
+			c.Count("neighbour_positions_confirmed", 1)
+		case elsewhere:
+			sig := fmt.Sprintf("C07:interference:neighbour:%s:%s:%s:dl=%+d,dc=%+d", base.group, base.site, base.styleClass(), other.Line-d.Line, other.Col-d.Col)
+			c.Violation(sig,
+				fmt.Sprintf("adding an independent diagnosed construct after a %s construct (site %s, %s scalar) in the same holder moved its report from %d:%d to %d:%d: %s", base.kind, c07SiteNames(base), base.styleName(), d.Line, d.Col, other.Line, other.Col, d.Msg),
+				map[string]interface{}{"base": c07Detail(base, ds0, nil), "with_neighbour": c07Detail(nb, ds1, nil)})
+		default:
+			c.Count("neighbour_diagnostic_gone", 1)
 		}
 	}
 }
@@ -851,11 +933,13 @@ func c07ExplicitKeyCase(c *Case) {
 // ---------------------------------------------------------------------------
 
 func runC07(r *Run) {
-	r.Rule = "generated workflows (clean base + exactly one diagnosed construct written by a position-recording emitter): groups expr (lexer / parser / semantic / availability / untrusted-input / template errors at ~50 placeholder positions, embedded in text, whole-value, or bare if: condition), key (unexpected / duplicate / otherwise diagnosed keys), value (shell name, runner label, permission, event type, id, cron, action spec, typed literals ...), glob (offending character inside a filter pattern); layout drawn per case: indentation of every enclosing block, blanks after key:/-/brackets, block or flow holder, plain / single / double quoted, comment and blank lines, 0-3 earlier placeholders and 0-40 characters of text before the construct; each case is linted as is (bounds + absolute position), re-emitted in the other quoting styles and the other holder style (style / holder invariance + absolute position again) and re-emitted with 3 shifts (columns via indentation / padding / longer text / extra placeholder, or lines above). Plus the bounds oracle over every workflow under testdata/{ok,err,examples} and 13 kinds of byte / line mutations of them. Non-trivial = distinct (site, kind, mode, style, flow, position) of a generated case whose expected diagnostic was produced, or a distinct mutated corpus file that produced a non-YAML-level diagnostic."
+	r.Rule = "generated workflows (clean base + exactly one diagnosed construct written by a position-recording emitter): groups expr (lexer / parser / semantic / availability / untrusted-input / template errors at ~50 placeholder positions, embedded in text, whole-value, or bare if: condition), key (unexpected / duplicate / otherwise diagnosed keys), value (shell name, runner label, permission, event type, id, cron, action spec, typed literals ...), glob (offending character inside a filter pattern); layout drawn per case: indentation of every enclosing block, blanks after key:/-/brackets, block or flow holder, plain / single / double quoted, comment and blank lines, 0-3 earlier placeholders and 0-40 characters of text before the construct; sites pair.* hold a second construct diagnosed by another rule (glob, events, credentials, deprecated-commands, if-cond) in the same scalar, each with its own anchor; each case is linted as is (bounds + absolute position), re-linted with a further erroneous entry after it in the same holder (no interference), re-emitted in the other quoting styles and the other holder style (style / holder invariance + absolute position again) and re-emitted with 3 shifts (columns via indentation / padding / longer text / extra placeholder, or lines above). Plus the bounds oracle over every workflow under testdata/{ok,err,examples} and 13 kinds of byte / line mutations of them. Non-trivial = distinct (site, kind, mode, style, flow, position) of a generated case whose expected diagnostic was produced, or a distinct mutated corpus file that produced a non-YAML-level diagnostic."
 	r.Assume("the exactness oracle is applied only to constructs written on one line in a plain, single- or double-quoted scalar without escape sequences, in ASCII")
 	r.Assume("'offending token' for a lexer error is the unexpected character, for a parser error the unexpected token (the end marker }} for unexpected end of input), for a semantic error the first token of the offending sub-expression (errorAtExpr convention named in the property's anchors); for key diagnostics the key, for value diagnostics the first character of the scalar including its quote, for glob diagnostics the character named in the message")
 	r.Assume("diagnostics reported at the end of input of a bare if: condition and at an unterminated string literal have no absolute convention in the statement: they are subject to the shift relation and to style / holder invariance (same offset from the construct in plain, single- and double-quoted scalars and in block / flow holders; a plain-vs-quoted difference is reported under the absolute oracle's signature with the plain rendering as reference)")
 	r.Assume("the diagnostic about an object / array / null evaluated in a template is about the placeholder and must be at its first character (the $ of ${{), the convention observed on plain scalars")
+	r.Assume("no-interference oracle: a further erroneous entry appended after the construct in the same holder must leave every diagnostic of the base at its position; a diagnostic whose message disappears is not compared (the added entry may change what is checked)")
+	r.Assume("blanks between the quotes and the text (0-6) are part of the layout of every expression site except if: placeholders (there they are diagnosed themselves as extra characters) and the two-rule sites")
 	r.Assume("positions embedded in message texts (previously defined at line:L,col:C) are not compared")
 	r.Assume("a generated case that yields a diagnostic outside its expectation list, or lacks the expected one, is counted and skipped (floor: < 3% of the cases)")
 	r.Assume("lines are counted like the YAML reader does (LF, CRLF, CR, NEL, LS, PS)")
@@ -970,7 +1054,7 @@ func runC07(r *Run) {
 			}
 		}
 	}
-	for _, sk := range []string{"col|expr", "lines|expr", "pretext|expr", "placeholder|expr", "col|key", "lines|key", "col|value", "lines|value", "col|glob", "lines|glob", "pretext|glob"} {
+	for _, sk := range []string{"col|expr", "lines|expr", "pretext|expr", "placeholder|expr", "innerspace|expr", "col|key", "lines|key", "col|value", "lines|value", "col|glob", "lines|glob", "pretext|glob"} {
 		if !r.SetHas("shift_kind_x_group", sk) {
 			r.Inconclusive("shift kind " + sk + " never exercised")
 		}
@@ -1006,6 +1090,28 @@ func runC07(r *Run) {
 		if !r.SetHas("sub_node_anchors", sn) {
 			r.Inconclusive("no compared case with a diagnostic anchored at sub-node " + sn)
 		}
+	}
+	for _, ps := range []string{"pair.path-filter+expr", "pair.path-ignore-filter+expr", "pair.ref-filter+expr", "pair.branch-filter+expr", "pair.event-type+expr", "pair.cron+expr", "pair.password+expr",
+		"pair.deprecated-command+expr", "pair.expr+deprecated-command", "pair.if-extra-characters+expr", "pair.job-if-extra-characters+expr"} {
+		if !r.SetHas("pairs_of_rules_in_one_scalar", ps+"|quoted") {
+			r.Inconclusive("two constructs of different rules in one quoted scalar never compared: " + ps)
+		}
+	}
+	for _, ps := range []string{"pair.path-filter+expr", "pair.cron+expr", "pair.password+expr", "pair.deprecated-command+expr"} {
+		if !r.SetHas("pairs_of_rules_in_one_scalar", ps+"|plain") {
+			r.Inconclusive("two constructs of different rules in one plain scalar never compared: " + ps)
+		}
+	}
+	for _, md := range []string{"emb", "whole", "bare"} {
+		if !r.SetHas("blanks_inside_quotes_modes", md) {
+			r.Inconclusive("no compared case with blanks between the opening quote and the construct in mode " + md)
+		}
+		if !r.SetHas("innerspace_shift_modes", md) {
+			r.Inconclusive("the shift 'k blanks inserted inside the quotes' was never exercised in mode " + md)
+		}
+	}
+	if r.Counter("neighbour_positions_confirmed") < compared/2 {
+		r.Inconclusive(fmt.Sprintf("no-interference oracle confirmed only %d positions for %d cases", r.Counter("neighbour_positions_confirmed"), compared))
 	}
 	for n := 0; n <= 3; n++ {
 		if !r.SetHas("earlier_placeholders", fmt.Sprint(n)) {
